@@ -10,6 +10,10 @@ CLAIMED = {
    text="every integer operator x every ordered pair of the 9 integer types x every operand value (symbolic 64-bit registers), in return/initializer/assignment/argument/condition/op=/++-- contexts and at expression depth 2: z3 proves the emitted x86-64 code computes the C11 value and the _Generic/sizeof type; counterexamples are replayed natively",
    note="trusts z3, the asm executor (differentially validated against the CPU on every run), gcc/as for replay; expression depth > 2 is outside",
    technique="SMT (z3 bit-vectors) over symbolic execution of the assembly emitted by the freshly built compiler"),
+ "C02": dict(engine=E2, level="model_checking",
+   text="every conversion among the 12 arithmetic types that involves a floating type, + - * / and the six comparisons, negation and truth tests on float/double/long double, for ALL operand values incl. NaN, infinities, signed zeros, denormals: z3 (FP theory, x87 modelled as FP(15,64) with the control word the code loads) proves the emitted SSE/x87 sequences yield the C11/IEEE result; floating constants for a boundary list plus solver-found double-rounding witnesses",
+   note="trusts z3's FP theory, the asm executor (validated against the CPU each run); NaN payloads unspecified; literal text->binary (strtold) not encoded beyond the listed spellings",
+   technique="SMT (z3 floating-point + bit-vectors) over symbolic execution of the emitted SSE/x87 code"),
  "C11": dict(engine=E1, level="model_checking",
    text="bounded symbolic checking (cbmc) of the real unicode.c/tokenize.c literal kernels over all code points / all short buffers",
    note="trusts cbmc 6.11 and its C front end; bounds listed in evidence",
